@@ -250,6 +250,10 @@ func (self *LockManagerQueue) Resize() error {
 		self.nodeQueueSizes[i] = 0
 	}
 
+	for i := self.tailNodeIndex + 1; i <= self.nodeIndex; i++ {
+		self.queues[i] = nil
+		self.nodeQueueSizes[i] = 0
+	}
 	self.nodeIndex = self.baseNodeSize - 1
 	moveIndex := self.headNodeIndex - self.baseNodeSize
 	for i := self.headNodeIndex; i <= self.tailNodeIndex; i++ {
@@ -588,6 +592,10 @@ func (self *LockQueue) Resize() error {
 		self.nodeQueueSizes[i] = 0
 	}
 
+	for i := self.tailNodeIndex + 1; i <= self.nodeIndex; i++ {
+		self.queues[i] = nil
+		self.nodeQueueSizes[i] = 0
+	}
 	self.nodeIndex = self.baseNodeSize - 1
 	moveIndex := self.headNodeIndex - self.baseNodeSize
 	for i := self.headNodeIndex; i <= self.tailNodeIndex; i++ {
@@ -924,6 +932,10 @@ func (self *LockCommandQueue) Resize() error {
 		self.nodeQueueSizes[i] = 0
 	}
 
+	for i := self.tailNodeIndex + 1; i <= self.nodeIndex; i++ {
+		self.queues[i] = nil
+		self.nodeQueueSizes[i] = 0
+	}
 	self.nodeIndex = self.baseNodeSize - 1
 	moveIndex := self.headNodeIndex - self.baseNodeSize
 	for i := self.headNodeIndex; i <= self.tailNodeIndex; i++ {
